@@ -399,6 +399,11 @@ func genNames(c *ctx) {
 			chainName = []string{"a", "f.txt", "%d", c09Long(251, 'J'), "d"}[ci%5]
 			if ci >= 4 { // the first four series of a run are complete, the others have exactly one gap
 				seriesGap = []int{0, 1, 9, 10, 99, 100, 998, 999, c.rng.Intn(1000)}[c.rng.Intn(9)]
+				if ci == 4 {
+					seriesGap = 999 // the last candidate is always tried in some case
+				} else if ci == 5 {
+					seriesGap = 0
+				}
 			}
 			chainMsgs = 2 + c.rng.Intn(3)
 			c.count("pre:full-series")
@@ -584,6 +589,12 @@ func genNames(c *ctx) {
 			results = append(results, res)
 
 			// ---- direct oracles, per message
+			if seriesFull && seriesGap >= 0 && mi == 0 && err != nil {
+				// the series has exactly one free candidate: the first arrival must get it
+				c09Violate(c, fmt.Sprintf("gap-unused:ow=%v,dir=%v,v3=%v,series=%s,gap=%d,record=%s", overwrite, directory, v3, hx([]byte(chainName)), seriesGap, hx([]byte(raw))),
+					"one candidate of name, name.0 .. name.999 is free and the name is refused",
+					fmt.Sprintf("series of %q complete except %q: record %q refused (%v)", chainName, chainName+"."+strconv.Itoa(seriesGap), raw, err))
+			}
 			// the fresh name is the requested name or name.N, N the first decimal counter whose
 			// candidate is not there (C07) - whatever bytes the name consists of
 			if !overwrite && err == nil && !entry {
